@@ -6,7 +6,7 @@ log=${RUN_ALL_LOG:-/tmp/run_all_${tier}_${seed}.log}; : > $log
 cd "$(dirname "$0")/.."
 for p in $props; do
   t0=$(date +%s)
-  VERIF_SEED=$seed timeout $([ "$tier" = thorough ] && echo 20000 || echo 3000) /venv/bin/python check.py $p --tier $tier > ${RUN_ALL_OUT:-/tmp}/run_all_$p.out 2>&1; rc=$?
+  VERIF_SEED=$seed timeout $([ "$tier" = thorough ] && echo 20000 || echo 3000) /venv/bin/python check.py $p --tier $tier $RUN_ALL_ARGS > ${RUN_ALL_OUT:-/tmp}/run_all_$p.out 2>&1; rc=$?
   t1=$(date +%s)
   echo "$p rc=$rc wall=$((t1-t0))s $(grep "^$p tier" ${RUN_ALL_OUT:-/tmp}/run_all_$p.out | cut -c1-160)" >> $log
   grep -E "^VIOLATION|HARNESS-ERROR|^note:" ${RUN_ALL_OUT:-/tmp}/run_all_$p.out | cut -c1-300 >> $log
